@@ -42,7 +42,10 @@ _C_FILES = ("_canneal.c", "anneal_quso.c", "anneal_puso.c", "random.c", "pcg_bas
 
 
 def prepare(tier):
-    _STATE["asan_path"] = build.build("asan", tag="C17-asan")
+    import atexit
+    import shutil
+    _STATE["asan_path"] = build.build("asan", tag="C17-asan-%d" % os.getpid())
+    atexit.register(shutil.rmtree, _STATE["asan_path"], True)
     _STATE["runtime"] = build.asan_runtime()
 
 
@@ -286,7 +289,7 @@ def sequence():
 
 
 def subchecks(tier):
-    return [Sub("sequence", sequence(), run_case, quick=1800, thorough=60000)]
+    return [Sub("sequence", sequence(), run_case, quick=3600, thorough=80000)]
 
 
 # --------------------------------------------------------------------------
@@ -302,7 +305,7 @@ def extra_evidence(tier, merged):
 def _gcov_pass(n):
     import hypothesis
     from hypothesis import given, settings, HealthCheck, Phase, Verbosity
-    path = build.build("gcov", tag="C17-gcov")
+    path = build.build("gcov", tag="C17-gcov-%d" % os.getpid())
     w = Worker(path, sanitised=False)
     count = {"n": 0}
 
@@ -335,4 +338,6 @@ def _gcov_pass(n):
             for l in open(os.path.join(simdir, f), errors="replace"):
                 if l.lstrip().startswith("#####"):
                     missed.setdefault(f[:-5], []).append(l.split(":", 2)[1].strip())
+    import shutil
+    shutil.rmtree(path, ignore_errors=True)
     return {"sequences": count["n"], "files": out, "unexecuted_lines": missed}
